@@ -295,11 +295,49 @@ def _level_key(f, pos, text, path, calls, refs):
         if text_n == v:
             ks = set()
             for (_b, _i, d) in f.reaching_defs(v, pos):
-                k = _level_key(f, (_b, _i), d.get("rhs"), None, d.get("calls", []), d.get("refs", []))
+                k = _level_key(f, (_b, _i), d.get("rhs"), _rhs_path(d), d.get("calls", []), d.get("refs", []))
                 ks.add(k)
             if len(ks) == 1:
                 return ks.pop()
     return None
+
+
+def _rhs_path(w):
+    """access path of a write's right-hand side `x.m()` (for _level_key)"""
+    m = _re.match(r"^(\w+)\.(\w+)\(\)$", (w.get("rhs") or "").replace("this->", ""))
+    if m and len(local_refs(w.get("refs", []))) == 1 and len(w.get("calls", [])) == 1:
+        return {"root": "l:" + m.group(1), "chain": ["m:" + w["calls"][0]]}
+    return None
+
+
+def _reaching_field_writes(f, var, leaf, pos):
+    """write events to field `leaf` of local `var` that may reach pos (backward walk; a write
+    to the same field kills earlier ones on that path)"""
+    out, seen = [], set()
+    work = [(pos[0], pos[1])]
+    first = True
+    while work:
+        b, upto = work.pop()
+        if not first and b in seen:
+            continue
+        if not first:
+            seen.add(b)
+        first = False
+        evs = f.blocks[b]["ev"]
+        hit = None
+        for k in range(min(upto, len(evs)) - 1, -1, -1):
+            e = evs[k]
+            if e["e"] == "write" and e.get("path", {}).get("root") == "l:" + var and \
+                    path_leaf(e.get("path")) == leaf:
+                hit = e
+                break
+        if hit is not None:
+            out.append(hit)
+            continue
+        for p in f.preds(b):
+            if p not in seen:
+                work.append((p, 10 ** 9))
+    return out
 
 
 def _var_key(f, pos, var):
@@ -359,6 +397,21 @@ def frame_agreement(db, cx, meths):
                     ck = _level_key(f, (b, i), c["init"], c.get("path"), c.get("calls", []), c.get("refs", []))
                 elif "LSA" in c.get("ty", "") or "LevelStateAccessor" in c.get("ty", ""):
                     ck = _var_key(f, (b, i), c["n"])
+                elif c.get("ty", "").replace("const ", "").split("::")[-1].strip(" &") == "LocalState":
+                    # a LocalState filled field by field: position, direction and volume that
+                    # reach the call must each come from the level of the universe
+                    for leaf in ("pos", "dir", "volume"):
+                        for w in _reaching_field_writes(f, c["n"], C + "detail::LocalState::" + leaf, (b, i)):
+                            if not w.get("calls") and not local_refs(w.get("refs", [])):
+                                continue     # reset to an empty value ({}): frame-free
+                            wk = _level_key(f, (b, i), w.get("rhs"), _rhs_path(w), w.get("calls", []),
+                                            w.get("refs", []))
+                            seen_frame_value = True
+                            if not _same_level(wk, ukey):
+                                bad.append("%s.%s = %s is %s" % (
+                                    c["n"], leaf, w.get("rhs"),
+                                    ("level %s" % wk[1]) if wk else "of no identifiable level"))
+                    continue
                 else:
                     continue
                 seen_frame_value = True
@@ -433,6 +486,33 @@ def frame_agreement(db, cx, meths):
                           "outside decision of set_dir is then wrong whenever a daughter below "
                           "the surface is placed with a rotation")
     cx.floor("tracker calls selected by a level's universe id", keyed, 4)
+    # make_local_state(level): the factory the callers above are keyed by
+    n = 0
+    for f in db.get(OTV + "make_local_state"):
+        prm = [p_["n"] for p_ in f.r["params"]]
+        if len(prm) != 1:
+            continue
+        rets = [(b, i) for (b, i, _e) in f.events("return")]
+        loc = [d["var"] for (_b, _i, d) in f.events("def") if d.get("kind") == "decl"
+               and d.get("ty", "").split("::")[-1] == "LocalState"]
+        if not rets or not loc:
+            continue
+        bad = []
+        for leaf in ("pos", "dir", "volume"):
+            ws = _reaching_field_writes(f, loc[0], C + "detail::LocalState::" + leaf, rets[0])
+            if not ws:
+                bad.append("%s never written" % leaf)
+            for w in ws:
+                wk = _level_key(f, rets[0], w.get("rhs"), _rhs_path(w), w.get("calls", []), w.get("refs", []))
+                if not (wk and wk[0] == "level" and _norm(wk[1]) == prm[0]):
+                    bad.append("%s.%s = %s is %s" % (loc[0], leaf, w.get("rhs"),
+                                                   ("level %s" % wk[1]) if wk else "of no identifiable level"))
+        n += 1
+        cx.ob("C03.6-frame-agreement", "make_local_state(%s): position, direction and volume are those "
+              "of level `%s`" % (prm[0], prm[0]), not bad, "; ".join(bad), short(f.loc),
+              why="every tracker call made with make_local_state(k) relies on the state being in the "
+                  "frame of level k")
+    cx.floor("make_local_state definitions", n, 1)
 
 
 def frame_carry(db, cx, meths):
